@@ -788,6 +788,43 @@ func verifyFetchedKeysWithWork(
 	return false, false, lastErr
 }
 
+// startupRootKeys is the trust set a starting process may use before its
+// first AutoTA run: the configured keys minus every key whose revocation is on
+// record — in the tombstone store or, when that write had failed, as a
+// Revoked/Removed marker in the state file — and minus keys that carry the
+// REVOKE bit themselves. RFC 5011 §2.1 makes revocation immediate and
+// permanent; a restart with a stale configuration is no exception. A store
+// that exists but cannot be read leaves nothing to trust, as in AutoTA.
+func startupRootKeys(dir string, configured []dns.RR) []dns.RR {
+	tombstones, err := readTombstones(filepath.Join(dir, tombstoneFile))
+	if err != nil {
+		zlog.Error("Trust anchor tombstones file unreadable or corrupted — starting without trust anchors", "error", err.Error())
+		return nil
+	}
+	barred := make(map[string]struct{}, len(tombstones))
+	for fp := range tombstones {
+		barred[fp] = struct{}{}
+	}
+	if state, err := readFromTAFile(filepath.Join(dir, stateFile)); err == nil {
+		for _, ta := range state {
+			if ta != nil && (ta.State == StateRevoked || ta.State == StateRemoved) {
+				barred[dnskeyMaterialFP(ta.DNSKey)] = struct{}{}
+			}
+		}
+	}
+	live := make([]dns.RR, 0, len(configured))
+	for _, rr := range configured {
+		if k, ok := rr.(*dns.DNSKEY); ok {
+			if _, revoked := barred[dnskeyMaterialFP(k)]; revoked || k.Flags&DNSKEYFlagRevoke != 0 {
+				zlog.Warn("Configured trust anchor is on record as revoked — not trusted", "keytag", dnssec.KeyTag(k))
+				continue
+			}
+		}
+		live = append(live, rr)
+	}
+	return live
+}
+
 func readFromTAFile(filename string) (TrustAnchors, error) {
 	f, err := os.Open(filename) //nolint:gosec // G304 - filename from config, admin controlled
 	if err != nil {
